@@ -19,4 +19,5 @@ rec = alpha.record(p)
 with open(alpha.PINNED, "w") as fh:
     json.dump(rec, fh, indent=0, sort_keys=True)
     fh.write("\n")
-print(f"{len(rec)} functions, {sum(len(v['locals']) for v in rec.values())} locals, {sum(len(v['compares']) for v in rec.values())} comparisons recorded -> {alpha.PINNED}")
+fns = {k: v for k, v in rec.items() if "#" not in k}
+print(f"{len(fns)} functions, {sum(len(v['locals']) for v in fns.values())} locals, {sum(len(v['compares']) for v in fns.values())} comparisons, {len(rec) - len(fns)} module global tables recorded -> {alpha.PINNED}")
